@@ -47,6 +47,8 @@ pub struct Params {
     /// every 3-cut for streams up to this length (0 = none)
     pub three_cut_limit: usize,
     pub corrupt_seq: usize,
+    /// corrupted single messages are also fed under every 1-cut
+    pub corrupt_one_cuts: bool,
     pub trunc_seq: usize,
     pub recover_seq_narrow: usize,
     pub recover_seq_wide: usize,
@@ -927,7 +929,13 @@ where
                             let mut bad = data.clone();
                             bad[pos] = v;
                             let single: Vec<usize> = (1..bad.len()).collect();
-                            for cuts in [vec![], single] {
+                            let mut feeds: Vec<Vec<usize>> = vec![vec![], single];
+                            if p.corrupt_one_cuts && seq.len() == 1 {
+                                for c in 1..bad.len() {
+                                    feeds.push(vec![c]);
+                                }
+                            }
+                            for cuts in feeds {
                                 let mut dec = (e.new_dec)();
                                 let t = drive(&mut dec, e.convert, &bad, &cuts, 1);
                                 s.cases += 1;
@@ -945,7 +953,7 @@ where
                                         if !out.iter().any(|o| o.law == f.law && o.extra == extra) {
                                             let mut detail = case_detail(e.name, "corruption", seq, &msgs, &shown, &bad, &cuts, &f, p.tier);
                                             detail["corrupt"] = json!({"offset": pos, "value": v, "original": orig, "field": fld.name, "byte_of_field": bi, "message_index": mi});
-                                            detail["input"] = json!(format!("{} seq=[{}] byte {} ({}[{}]) {:#04x}->{:#04x} cuts={}", e.name, shown.join(", "), pos, fld.name, bi, orig, v, if cuts.is_empty() { "none" } else { "byte-by-byte" }));
+                                            detail["input"] = json!(format!("{} seq=[{}] byte {} ({}[{}]) {:#04x}->{:#04x} cuts={}", e.name, shown.join(", "), pos, fld.name, bi, orig, v, if cuts.is_empty() { "none".to_string() } else if cuts.len() == 1 && bad.len() > 2 { format!("{:?}", cuts) } else { "byte-by-byte".to_string() }));
                                             detail["corrupted_message_kind"] = json!(kind);
                                             detail["first_wrong_message_decoded_as"] = json!(decoded_as);
                                             out.push(Found { law: f.law.clone(), kind: String::new(), args: String::new(), extra, detail });
